@@ -626,6 +626,20 @@ func (sdb *DbSqlite) edgePoints(nodeID, parentID string, points data.Points) err
 	if len(edges) <= 0 {
 		newEdge = true
 		edge.ID = uuid.New().String()
+
+		// a node must never become its own ancestor. Deleted edges count
+		// as well because they can be undeleted.
+		loop, err := sdb.isUpstream(tx, parentID, nodeID)
+		if err != nil {
+			rollback()
+			return err
+		}
+
+		if loop {
+			rollback()
+			return fmt.Errorf("Error: node %v is upstream of %v, can't make it a child",
+				nodeID, parentID)
+		}
 	} else {
 		edge = edges[0]
 	}
@@ -843,6 +857,49 @@ NextPin:
 	}
 
 	return nil
+}
+
+// isUpstream returns true if upID is id, or is upstream of id through any
+// edges (deleted or not)
+func (sdb *DbSqlite) isUpstream(tx *sql.Tx, id, upID string) (bool, error) {
+	visited := make(map[string]bool)
+	todo := []string{id}
+
+	for len(todo) > 0 {
+		cur := todo[0]
+		todo = todo[1:]
+
+		if cur == upID {
+			return true, nil
+		}
+
+		if visited[cur] {
+			continue
+		}
+
+		visited[cur] = true
+
+		rows, err := tx.Query("SELECT up FROM edges WHERE down=?", cur)
+		if err != nil {
+			return false, err
+		}
+
+		for rows.Next() {
+			var up string
+			err := rows.Scan(&up)
+			if err != nil {
+				rows.Close()
+				return false, err
+			}
+			todo = append(todo, up)
+		}
+
+		if err := rows.Close(); err != nil {
+			return false, err
+		}
+	}
+
+	return false, nil
 }
 
 // updateHash applies hashUpdate to the edges above node id and to all their
